@@ -99,9 +99,9 @@ def answers_of(text, res, out):
     return ans
 
 
-def signature_tail(logic, cfg, assertions):
+def signature_tail(logic, cfg, assertions, incremental=False):
     big = any(int(x) > 2**53 for x in re.findall(r"[0-9]{16,}", sx_str(assertions)))
-    return "%s:%s%s" % (logic, cfg, ":const>2^53" if big else "")
+    return "%s:%s%s%s" % (logic, cfg, ":incremental" if incremental else "", ":const>2^53" if big else "")
 
 
 def sweep(ctx, pid, n_scripts, cfgs_per_script, judge_sat=True, judge_unsat=True, gen_kwargs=None, logics=None,
@@ -152,7 +152,7 @@ def sweep(ctx, pid, n_scripts, cfgs_per_script, judge_sat=True, judge_unsat=True
                 ctx.case(key=key, nontrivial=len(A) > 0, kind="unsat:%s:%s" % (logic, v),
                          sample=dict(script=t, check_index=k, answer=a, verdict=v))
                 if v in ("refuted-certified", "refuted-oracles"):
-                    ctx.violation("wrong-unsat:%s:%s" % (v, signature_tail(logic, cfg, A)),
+                    ctx.violation("wrong-unsat:%s:%s" % (v, signature_tail(logic, cfg, A, meta["incremental"])),
                                   "answered unsat for a satisfiable assertion set (%s) under config %s" % (
                                       "model validated by the Coq-extracted evaluator" if v == "refuted-certified" else "z3 and cvc5 both say sat; ORACLE-ONLY", cfg),
                                   dict(script=t, check_index=k, config=cfg, assertions=[sx_str(x) for x in A], model=detail))
@@ -161,7 +161,7 @@ def sweep(ctx, pid, n_scripts, cfgs_per_script, judge_sat=True, judge_unsat=True
                 ctx.case(key=key, nontrivial=len(A) > 0, kind="sat:%s:%s" % (logic, v),
                          sample=dict(script=t, check_index=k, answer=a, verdict=v))
                 if v == "refuted-oracles":
-                    ctx.violation("wrong-sat:refuted-oracles:%s" % signature_tail(logic, cfg, A),
+                    ctx.violation("wrong-sat:refuted-oracles:%s" % signature_tail(logic, cfg, A, meta["incremental"]),
                                   "answered sat (own model rejected by the verified evaluator: %s) while z3 and cvc5 both say unsat; ORACLE-ONLY for unsatisfiability" % detail,
                                   dict(script=t, check_index=k, config=cfg, assertions=[sx_str(x) for x in A]))
                 elif v == "model-invalid-but-sat":
@@ -177,8 +177,40 @@ def sweep(ctx, pid, n_scripts, cfgs_per_script, judge_sat=True, judge_unsat=True
                     a, b = d[cfgs[i]], d[cfgs[j]]
                     for k, (x, y) in enumerate(zip(a, b)):
                         if {x, y} == {"sat", "unsat"}:
-                            ctx.violation("contradiction:%s:%s" % (meta["logic"], "+".join(sorted([cfgs[i].split(":")[0], cfgs[j].split(":")[0]]))),
+                            ctx.violation("contradiction:%s:%s%s" % (meta["logic"], "+".join(sorted([cfgs[i].split(":")[0], cfgs[j].split(":")[0]])), (":incremental" if meta["incremental"] else "") + (":const>2^53" if any(int(x) > 2**53 for x in re.findall(r"[0-9]{16,}", text)) else "")),
                                           "configurations %s and %s give contradicting answers (%s / %s) on check %d" % (cfgs[i], cfgs[j], x, y, k + 1),
                                           dict(script=text, configs=[cfgs[i], cfgs[j]], options=[CONFIGS.get(cfgs[i], cfgs[i]), CONFIGS.get(cfgs[j], cfgs[j])], answers=[a, b]))
             ctx.case(key=("cmp", text), nontrivial=len(d) > 1, kind="compared:%d-configs" % len(d))
     return scripts, per_script
+
+
+def run_corpus(ctx, pid, judge_sat=True, judge_unsat=True):
+    """Minimised failing cases kept from earlier runs (corpus/<pid>/*.smt2 with header lines `; config: <name>` and
+    `; logic: <logic>`) are run before the generated cases."""
+    import glob
+    import os
+    import vlib
+    for f in sorted(glob.glob(os.path.join(vlib.VERIF, "corpus", pid, "*.smt2"))):
+        raw = open(f).read()
+        m = re.search(r"^; config: (\S+)", raw, re.M)
+        cfg = m.group(1) if m else "default"
+        m = re.search(r"^; logic: (\S+)", raw, re.M)
+        logic = m.group(1) if m else "QF_UF"
+        text = "\n".join(l for l in raw.split("\n") if not l.startswith(";")) + "\n"
+        rc, res, out, err, t, judged = run_one((text, cfg, CONFIGS[cfg], None, 10, judge_sat, judge_unsat, logic))
+        ans = answers_of(text, res, out) if rc in (0, 1) else None
+        ctx.case(key=("corpus", f), nontrivial=True, kind="corpus:%s" % os.path.basename(f), sample=dict(script=t, rc=rc))
+        inc = "(push" in text
+        for k, a, frames, sig, model in (ans or []):
+            v = judged.get(k)
+            if not v:
+                continue
+            A = sc.active_assertions(frames)
+            if a == "sat" and v[0] == "refuted-oracles":
+                ctx.violation("wrong-sat:%s:%s" % (v[0], signature_tail(logic, cfg, A, inc)),
+                              "corpus case %s: answered sat, own model rejected (%s), z3 and cvc5 say unsat (ORACLE-ONLY)" % (os.path.basename(f), v[1]),
+                              dict(script=t, config=cfg, check_index=k))
+            if a == "unsat" and v[0] in ("refuted-certified", "refuted-oracles"):
+                ctx.violation("wrong-unsat:%s:%s" % (v[0], signature_tail(logic, cfg, A, inc)),
+                              "corpus case %s: answered unsat for a satisfiable assertion set (%s)" % (os.path.basename(f), v[0]),
+                              dict(script=t, config=cfg, check_index=k, model=v[1]))
